@@ -12,6 +12,7 @@ from .common import (ModelGap, Violation, World, base_result, blueprint_probes, 
                      merge_fired, net_signature, probe, skeleton)
 
 PROP = "C08"
+RUN_TIMEOUT_S = {"quick": 300, "thorough": 1200}   # thorough compiles programs of several hundred entities
 
 
 def gen_case(ch: Chooser, tier: str = "quick") -> dict:
